@@ -170,6 +170,8 @@ def run_plan(pid, plan, seed, workdir, flags=()):
             a['seed'] = seed
             a['n'] = cnt
             a['first'] = first
+            if item['scen'] == 'urgency':
+                a['first'] = s
             jobs.append((item['scen'], a, os.path.join(workdir, f'{pid}_{k}_{s}.lines'), tuple(flags)))
     paths = []
     with concurrent.futures.ThreadPoolExecutor(max_workers=NCPU) as ex:
